@@ -20,6 +20,8 @@ type Job struct {
 	Run  func(jc *JobCtx) *JobResult
 	// Scenario lookup for replays (explore-type jobs)
 	Scenario *explore.Scenario
+	// FindScenario is used instead when one job explores many scenarios.
+	FindScenario func(name string) *explore.Scenario
 }
 
 type JobCtx struct {
